@@ -440,22 +440,22 @@ theorem bindAttrs_NX {e : BEnv} {Γ : Ctx} (pcfg : ParserConfig) (cfg : SerCfg) 
     (fields : List (Str × Val)) (nsmap : NsMap) (X : List (QN × Str))
     (h : ∀ var ∈ m.attributeVars, AttrFactsN e Γ m fields var)
     (hnd : (m.attributeVars.map (·.name)).Nodup)
-    (hX : ∀ kv ∈ X, m.findAttribute kv.1 = none ∧ m.findAnyAttributes kv.1 = none ∧
-      targetUri kv.1 = some xsiNs) :
+    (hX : ∀ kv ∈ X, m.findAttribute kv.1 = none ∧ (kv.1 = xsiType ∨ kv.1 = xsiNil)) :
     bindAttrs e pcfg m (attrPairsN cfg m.attributeVars fields ++ X) nsmap =
       .ok (attrParamsN cfg m.attributeVars fields, 0) := by
   unfold bindAttrs
   rw [foldlM_append_ok (foldlM_attrN_gen (e := e) (Γ := Γ) (m := m) (fields := fields) cfg _ ?_ ?_ ?_
     m.attributeVars [] h hnd (fun _ _ => rfl))]
   · -- control attributes (`xsi:type`, `xsi:nil`) that no var takes are skipped
-    apply foldlM_skip _ (fun kv => m.findAttribute kv.1 = none ∧ m.findAnyAttributes kv.1 = none ∧
-      targetUri kv.1 = some xsiNs) ?_ _ X hX
+    apply foldlM_skip _ (fun kv => m.findAttribute kv.1 = none ∧ (kv.1 = xsiType ∨ kv.1 = xsiNil)) ?_ _ X hX
     intro acc kv hkv
-    obtain ⟨h1, h2, h3⟩ := hkv
+    obtain ⟨h1, h2⟩ := hkv
     obtain ⟨P, w⟩ := acc
     obtain ⟨k, v⟩ := kv
-    simp only at h1 h2 h3
-    simp [h1, h2, h3, pure, Except.pure]
+    simp only at h1 h2
+    have hctl : (decide (k = xsiType) || decide (k = xsiNil)) = true := by
+      rcases h2 with h | h <;> simp [h]
+    simp [h1, hctl, pure, Except.pure]
   · intro P var d s hf hi ha hfresh
     obtain ⟨t, hty, hc⟩ := attrOfN_cases hf ha
     rcases hc with ⟨htok, p, hv, hpt, _, _, rfl⟩ | ⟨htok, ys, _, hv, hys, _, rfl⟩
@@ -473,14 +473,19 @@ theorem bindAttrs_NX {e : BEnv} {Γ : Ctx} (pcfg : ParserConfig) (cfg : SerCfg) 
       simp [hf.find, hhas', hpv, hi, hvf, bind, Except.bind, pure, Except.pure]
     · rw [htok] at htok'; cases htok'
   · intro Q var kw hm hkw hcur
-    obtain ⟨hmatch, hnf, _, hval, _⟩ := hm.entries kw hkw
+    obtain ⟨hmatch, hnf, hxsi, hval, _⟩ := hm.entries kw hkw
     obtain ⟨k, v⟩ := kw
+    have hctl : (decide (k = xsiType) || decide (k = xsiNil)) = false := by
+      simp only [Bool.or_eq_false_iff, decide_eq_false_iff_not]
+      constructor
+      · intro h; apply hxsi; rw [h]; show targetUri xsiType = some xsiNs; decide
+      · intro h; apply hxsi; rw [h]; show targetUri xsiNil = some xsiNs; decide
     have hfa : m.findAnyAttributes k = some var := by
       simp [XmlMeta.findAnyAttributes, hm.any, findByNamespace, hmatch]
     have hcurany : (curOf Q var.name).any (fun x => decide (x.1 = k)) = false := by
       simp only [List.any_eq_false, decide_eq_true_eq]
       exact fun x hx => hcur x hx
-    simp only [hnf, hfa, parseAnyAttribute_id hval, pure, Except.pure]
+    simp only [hnf, hctl, Bool.false_eq_true, if_false, hfa, parseAnyAttribute_id hval, pure, Except.pure]
     unfold curOf at hcurany ⊢
     cases hg : Q.get var.name with
     | none => simp [hg] at hcurany ⊢
